@@ -10,6 +10,7 @@ import (
 	"strconv"
 	"strings"
 	"sync"
+	"syscall"
 	"time"
 
 	"github.com/postalsys/muti-metroo/internal/agent"
@@ -26,7 +27,7 @@ import (
 //	start                                              Handler.Start()                   -> ok
 //	open <key>                                         Handler.HandleStreamOpen          -> notrunning | err <code> | dial <target> | dialerr <code>
 //	agent <addrType> <addr> <none|self|other|selfother|otherself> <w>
-//	                                                   Agent.handleStreamOpen(frame)     -> none | err <code> | dial <target> | dialerr <code>
+//	                                                   Agent.handleStreamOpen(frame)     -> none | err <code> | dial <target>   (a failed dial is err <code> too)
 //	      (w=1: the generator expects an asynchronous answer, wait for it; w=0: only a short grace period)
 //	close <i>                                          HandleStreamClose of the i-th dialled stream -> ok
 //
@@ -88,13 +89,20 @@ func (s *c20State) init() {
 	s.once.Do(func() {
 		s.acc = make(chan c20Accept, 1024)
 		for i := 0; i < c20Live+2; i++ {
+			if i >= c20Live {
+				// dead target: a socket that is bound (so no other process can take the port) but never
+				// listens — connections to it are refused
+				fd, err := syscall.Socket(syscall.AF_INET, syscall.SOCK_STREAM, 0)
+				must(err)
+				must(syscall.Bind(fd, &syscall.SockaddrInet4{Port: 0, Addr: [4]byte{127, 0, 0, 1}}))
+				sa, err := syscall.Getsockname(fd)
+				must(err)
+				s.addrs = append(s.addrs, fmt.Sprintf("127.0.0.1:%d", sa.(*syscall.SockaddrInet4).Port))
+				continue
+			}
 			l, err := net.Listen("tcp", "127.0.0.1:0")
 			must(err)
 			s.addrs = append(s.addrs, l.Addr().String())
-			if i >= c20Live { // dead target: the port was ours a moment ago, nobody listens now
-				l.Close()
-				continue
-			}
 			i := i
 			go func() {
 				for {
@@ -163,46 +171,31 @@ func (s *c20State) teardown() {
 	s.conns, s.pending, s.dialled = nil, nil, nil
 }
 
-// outcome collects the reply to stream sid.  A reply that is already queued when the call under
-// test has returned is synchronous (a refusal decided before any dial); otherwise, if waitAsync,
-// the asynchronous reply is awaited, else only a short grace period is given.
-func (s *c20State) outcome(sid, rid uint64, waitAsync bool) string {
+// outcome collects the reply to stream sid: it waits for it when waitAsync (the call under test
+// accepted the request, the answer comes from its goroutine), otherwise it takes what is already
+// queued and gives stragglers a short grace period.  errTag is how a refusal is printed ("err" when
+// the caller knows it was decided synchronously or cannot tell, "dialerr" when it is the outcome of
+// the asynchronous dial).
+func (s *c20State) outcome(sid, rid uint64, waitAsync bool, errTag string) string {
 	var ev *c20Event
-	sync := false
-	// 1. synchronous replies
+	wait := 5 * time.Millisecond
+	if waitAsync {
+		wait = 20 * time.Second
+	}
+	timeout := time.After(wait)
 	for ev == nil {
 		select {
 		case e := <-s.w.ev:
 			if e.streamID == sid {
 				e := e
-				ev, sync = &e, true
+				ev = &e
 			}
-		default:
-			goto drained
-		}
-	}
-drained:
-	// 2. asynchronous reply
-	if ev == nil {
-		wait := 5 * time.Millisecond
-		if waitAsync {
-			wait = 20 * time.Second
-		}
-		timeout := time.After(wait)
-		for ev == nil {
-			select {
-			case e := <-s.w.ev:
-				if e.streamID == sid {
-					e := e
-					ev = &e
-				}
-			case <-timeout:
-				if waitAsync {
-					return "timeout" + s.strays()
-				}
-				s.drain(time.Millisecond)
-				return "none" + s.strays()
+		case <-timeout:
+			if waitAsync {
+				return "timeout" + s.strays()
 			}
+			s.drain(time.Millisecond)
+			return "none" + s.strays()
 		}
 	}
 	if ev.requestID != rid || ev.peer != s.remote {
@@ -210,10 +203,7 @@ drained:
 	}
 	if ev.kind == "err" {
 		s.drain(2 * time.Millisecond)
-		if sync {
-			return fmt.Sprintf("err %d", ev.code) + s.strays()
-		}
-		return fmt.Sprintf("dialerr %d", ev.code) + s.strays()
+		return fmt.Sprintf("%s %d", errTag, ev.code) + s.strays()
 	}
 	idx := s.attribute(int(ev.port))
 	s.dialled = append(s.dialled, sid)
@@ -265,7 +255,7 @@ func init() {
 				sid, rid := s.nextSID, s.nextSID*7+1
 				err := s.h.HandleStreamOpen(context.Background(), sid, rid, s.remote, string(unhexTok(f[1])), s.ephPub)
 				if err != nil {
-					out := s.outcome(sid, rid, false)
+					out := s.outcome(sid, rid, false, "err")
 					if strings.HasPrefix(out, "none") {
 						if err.Error() == "handler not running" {
 							return "notrunning" + out[4:]
@@ -274,7 +264,7 @@ func init() {
 					}
 					return out
 				}
-				return s.outcome(sid, rid, true)
+				return s.outcome(sid, rid, true, "dialerr")
 			case "agent":
 				at, err := strconv.Atoi(f[1])
 				must(err)
@@ -296,7 +286,7 @@ func init() {
 				// wait for an asynchronous answer only when the generator expects a dial AND the handler is
 				// in a state to accept (public accessors; a synchronous refusal is picked up either way)
 				wait := f[4] == "1" && s.h.IsRunning() && (s.maxConn <= 0 || s.h.ConnectionCount() < int64(s.maxConn))
-				return s.outcome(sid, rid, wait)
+				return s.outcome(sid, rid, wait, "err")
 			case "close":
 				i, err := strconv.Atoi(f[1])
 				must(err)
@@ -308,7 +298,7 @@ func init() {
 			return "bad-op"
 		},
 		Gen: func(w *bufio.Writer, seed int64, tier string) {
-			r := newRng(seed)
+			r := newRngMixed(seed)
 			cases := 150
 			if tier == "thorough" {
 				cases = 4000
